@@ -426,6 +426,7 @@ pub fn c14_cases(c: &Corpus, quick: bool) -> Vec<Circuit> {
     let enc_subs: Vec<EncSub> = vec![
         EncSub::Honest,
         EncSub::EncodeOf(ESrc::MulGen(5)),
+        EncSub::NegHonest,
         EncSub::Raw(le32(&(&f.p - 1u32))),
         EncSub::Raw(le32(&num_bigint::BigUint::from(0u32))),
         EncSub::Raw(le32(&num_bigint::BigUint::from(1u32))),
@@ -452,6 +453,34 @@ pub fn c14_cases(c: &Corpus, quick: bool) -> Vec<Circuit> {
                 }
             }
         }
+    }
+    // witness allocation followed by compression of the result: the encoding that comes out must be the native one
+    // whatever the prover witnessed as encoding
+    for e in elems.iter() {
+        for es in [EncSub::Honest, EncSub::NegHonest, EncSub::EncodeOf(ESrc::MulGen(5))] {
+            out.push(mk(
+                vec![R1Op::WitnessOffer { offer: Offer::Honest(e.clone()) }, R1Op::Compress(0)],
+                vec![],
+                vec![es.clone()],
+            ));
+            out.push(mk(
+                vec![R1Op::WitnessOffer { offer: Offer::Honest(e.clone()) }, R1Op::IsZero(0)],
+                vec![],
+                vec![es],
+            ));
+        }
+    }
+    // identity held through its (0,-1) representative, reached by a sign flip of the root when decoding s = 0
+    for sub in &subs {
+        out.push(mk(
+            vec![
+                R1Op::AllocFqVar { mode: Mode::Witness, v: le32(&num_bigint::BigUint::from(0u32)) },
+                R1Op::Decompress(0),
+                R1Op::IsZero(0),
+            ],
+            vec![sub.clone()],
+            vec![],
+        ));
     }
     // equality gadget on operands that need not be elements (allocated through the unchecked public constructor)
     for e in elems.iter() {
